@@ -27,7 +27,46 @@ def run(cmd, seed=1, tier='quick', inp=None, timeout=900):
     return json.loads(last[-1])
 
 
+PY_TARGET = os.path.join(ROOT, 'build', 'py-target')
+
+
+def search_py(seed, tier):
+    """C13: build the real Python extension (pip crate) from /repo's current tree and drive it from python3."""
+    env = dict(os.environ)
+    env.update({'CARGO_NET_OFFLINE': 'true', 'CARGO_TARGET_DIR': PY_TARGET})
+    p = subprocess.run(['cargo', 'build', '-p', 'pip', '--offline', '--features', 'pyo3/extension-module'], cwd='/repo', env=env,
+                       capture_output=True, text=True, timeout=3000)
+    if p.returncode != 0:
+        raise RuntimeError('python extension does not build against the current tree:\n' + p.stderr[-2000:])
+    moddir = os.path.join(PY_TARGET, 'pymod')
+    os.makedirs(moddir, exist_ok=True)
+    import shutil
+    shutil.copyfile(os.path.join(PY_TARGET, 'debug', 'libpykmertools.so'), os.path.join(moddir, 'pykmertools.so'))
+    env['PYTHONPATH'] = moddir
+    q = subprocess.run(['python3', os.path.join(ROOT, 'replay', 'py', 'c13.py'), str(seed), tier], env=env, capture_output=True, text=True, timeout=3000)
+    last = [l for l in q.stdout.strip().split('\n') if l.startswith('{')]
+    if not last:
+        return {'found': True, 'cases': 0, 'cmd': 'c13', 'witness': {'process': 'python driver died (interpreter crash or exception)', 'returncode': q.returncode,
+                                                                     'stderr': q.stderr[-1500:]}}
+    out = json.loads(last[-1])
+    out['cmd'] = 'c13'
+    return out
+
+
 def search(prop, cmd, seed, tier):
+    if ',' in cmd:
+        # several witness programs for one property: run them in order until one reports a failing input
+        total = 0
+        last = None
+        for c in cmd.split(','):
+            last = search(prop, c.strip(), seed, tier)
+            total += last.get('cases', 0) or 0
+            if last.get('found'):
+                break
+        last['cases'] = total
+        return last
+    if cmd == 'c13':
+        return search_py(seed, tier)
     build()
     out = run(cmd, seed, tier)
     out['cmd'] = cmd
